@@ -1,5 +1,6 @@
 import EpModel.Driver.Util
 import EpModel.Model.Checksum
+import EpModel.Model.ChecksumFast
 import EpModel.Model.ChecksumWire
 import EpModel.Spec.Rfc1071
 /- `ck.*` operations: checksum helpers. -/
